@@ -9,7 +9,7 @@ from ..finite import ConstEval, MemberObj, Undecidable, allowed_sets, local_tabl
 from ..program import FuncInfo, norm
 from ..report import Finding, RuleResult
 
-from ..anchors import condition_parser, path_parser
+from ..anchors import condition_parser, path_parser, filter_hook_name, filter_impl
 
 
 def spec_driven(prog):
@@ -92,7 +92,7 @@ def rule_reflect(ctx):
             else:
                 inst["verdict"] = f"whitelisted by a constant table ({len(allowed)} names), all DSL names"
                 r.ok()
-        elif f.qualname == "conditions.Condition._filter":
+        elif f.qualname == filter_impl(prog, "conditions.Condition").qualname:
             enum = prog.cls("conditions.FilterDatumType")
             vals = []
             for k, e in enum.attrs.items():
